@@ -6,6 +6,7 @@ from collections import Counter
 from fractions import Fraction
 
 from contracts import c02 as K2
+from contracts import c04
 from contracts import c12 as K
 from contracts.specs import den
 from harness import outcome, trees
@@ -13,7 +14,7 @@ from harness.runner import BoundedRun, Failure
 from pyvc import api
 
 LEVEL = "exploration"
-SPECS = [den]
+SPECS = [c04.Rid, den]
 EXPLANATION = (
     "Bounded: tag_common_subexpressions on all lists of <= 2 (thorough 3) expressions from a pool with repeated, commuted and nested "
     "repeated subterms and pre-existing wrappers (prefixes, scopes): values preserved on an environment box; with ONE instrumented "
@@ -28,6 +29,8 @@ TRUSTED_BASE = []
 def proof_jobs(tier):
     import pymbolic.primitives as p
     jobs = [("function", fc, None, None) for fc in K.FUNCTIONS]
+    jobs += [("mapper", K.TAGGER, getattr(p, k), None) for k in K.TAGGER_CLASSES]
+    jobs += [("mapper", K.CSEMAPPER, getattr(p, k), None) for k in K.CSEMAPPER_CLASSES]
     for vn, v in K2.EVAL.variants:
         jobs.append(("mapperv", K2.EVAL, (p.CommonSubexpression, vn, v), None))
     return jobs
@@ -167,7 +170,7 @@ def bounded(tier, seed, procs):
     b = BoundedRun("tag-cse", rule="tag_common_subexpressions on all lists of 1..2 (thorough ..3) expressions from a pool of 20 (repeated, commuted, nested repeated "
                    "subterms; pre-existing wrappers with prefixes/scopes): (i) each output evaluates to the input's value on every environment of the box; (ii) with ONE "
                    "evaluator over all outputs, every operation (sum/product up to operand order, division, power, call) that occurred more than once in the input is "
-                   "performed at most once; (iii) no wrapper directly around a wrapper; non-trivial = list with a repeated operation",
+                   "performed at most once; (iii) no wrapper directly around a wrapper; (iv) a sample of the lists given as tuple, iterator and generator: same result as for the list; non-trivial = list with a repeated operation",
                    bound="20 expressions, lists <= 2 (3), 6 environments", functions=["tag_common_subexpressions", "CSEMapper.*", "UseCountMapper.*", "NormalizedKeyGetter", "wrap_in_cse"])
     pl = pool()
     envs = [{"x": vx, "y": vy, "z": 3, "f": lambda a, c: a * 7 + c} for vx, vy in [(2, 5), (-1, 4), (Fraction(1, 2), 3), (0, 1), (3, -2), (7, 7)]]
@@ -216,6 +219,15 @@ def bounded(tier, seed, procs):
             b.fail(Failure("tag-cse", f"{'cause=prefixed-wrapper ' if 'cause=prefixed-wrapper' in why else ''}exprs={[repr(e) for e in lst]} why={why}", dict(kind="tag", exprs=[trees.src(e) for e in lst]),
                            expected="same values, each repeated operation once, no double wrapper", actual=why,
                            functions=["tag_common_subexpressions", "CSEMapper", "UseCountMapper", "NormalizedKeyGetter"]))
+    # the argument forms: the same expressions given as a list, a tuple, an iterator, a generator give the same result
+    for lst in lists[:: max(1, len(lists) // 60)]:
+        ref = outcome.run(lambda: tag_common_subexpressions(list(lst)))
+        for form, mkarg in (("tuple", lambda: tuple(lst)), ("iterator", lambda: iter(lst)), ("generator", lambda: (e for e in lst))):
+            r = outcome.run(lambda: tag_common_subexpressions(mkarg()))
+            b.case(("form", form, tuple(repr(e) for e in lst)), nontrivial=False)
+            if not (r[0] == ref[0] and (r[0] != "val" or (isinstance(r[1], list) and len(r[1]) == len(ref[1]) and all(u == v for u, v in zip(r[1], ref[1]))))):
+                b.fail(Failure("tag-cse", f"what=argument-form form={form} exprs={[repr(e) for e in lst]}", dict(kind="tag-form", form=form, exprs=[trees.src(e) for e in lst]),
+                               expected=outcome.describe(ref)[:200], actual=outcome.describe(r)[:200], functions=["tag_common_subexpressions"]))
     b2 = BoundedRun("wrap-helpers", rule="wrap_in_cse / make_common_subexpression on constants, variables, subscripts, wrappers (with/without prefix, three scopes), sums; "
                     "object arrays and multivectors componentwise", bound="fixed list x prefixes x scopes", functions=["wrap_in_cse", "make_common_subexpression"])
     from pymbolic.geometric_algebra import MultiVector
